@@ -29,7 +29,7 @@ Definition vx (k : akind) : xc := xc_of (vanish_errno k).
 (* a process that is gone stays gone; one that is there may be gone after the next access *)
 Definition gs (g : bool) : list bool := if g then [true] else [false; true].
 Definition extras (o : oclass) : list xc :=
-  match o with Strict => [] | MayVanish => [XFnf; XEsrch] | MayVanishOrInval => [XFnf; XEsrch; XOsOther] end.
+  match o with Strict | DirSurvives => [] | MayVanish => [XFnf; XEsrch] | MayVanishOrInval => [XFnf; XEsrch; XOsOther] end.
 Definition live_sigs (o : oclass) : list asig := ANormal :: ARaise XPerm :: map ARaise (extras o).
 (* whose disappearance makes the access fail *)
 Inductive fail_by := ByG | ByO | ByNone.
@@ -41,10 +41,12 @@ Definition acc_gen (fb : fail_by) (sigs : list asig) (k : akind) (a : astate) : 
 Definition acc_who (x : who) (o : oclass) (k : akind) (a : astate) : ares :=
   match x with
   | Self => acc_gen ByG (live_sigs o) k a
+            ++ match o with DirSurvives => acc_gen ByNone (live_sigs o) k a | _ => [] end
   | Other => acc_gen ByO (live_sigs o) k a
   | Ext => acc_gen ByNone (live_sigs o) k a
   | Global => acc_gen ByNone [ANormal] k a
   | Any => acc_gen ByO (live_sigs o) k a
+           ++ match o with DirSurvives => acc_gen ByNone (live_sigs o) k a | _ => [] end
   end.
 (* abstract states a loop iteration can start in: the object's process stays gone once gone; the cache flag and
    the process in focus (it changes with the entry) are not tracked across iterations *)
